@@ -335,6 +335,45 @@ def main():
                 except Exception as ex:  # noqa: BLE001
                     res.fail(f"back-to-old-mesh scenario raises sim={kind}", f"{type(ex).__name__}: {str(ex)[:150]}", ident)
 
+    # ---------------- replacing the mesh after going back to an earlier one, then restoring the newest iteration ----------------
+    for kind in ("elastic", "thermal"):
+        for et in (["QUAD4"] if args.tier == "quick" else ["TRI3", "QUAD4", "TRI6"]):
+            cfg = Cfg(kind, et)
+            mesh0 = gen_mesh(et, 1.0)
+            model = make_model(cfg)
+            simu = make_sim(cfg, mesh0, model)
+            simu.rho = cfg.rho
+            ident = dict(sim=kind, elemType=et, scenario="read, Save_Iter, simu.mesh = mesh1, read, Save_Iter, Set_Iter(0), simu.mesh = mesh2, read, Save_Iter, Set_Iter(0), Set_Iter(2), read")
+            try:
+                simu.Get_K_C_M_F()
+                simu.Save_Iter()
+                mesh1 = gen_mesh(et, 1.0)
+                apply_transform(mesh1, ("coord", 2.0, 0.25, 0.0, 1.5))        # same topology, other geometry
+                simu.mesh = mesh1
+                simu.Get_K_C_M_F()
+                simu.Save_Iter()
+                simu.Set_Iter(0)
+                mesh2 = gen_mesh(et, 1.0)
+                t2 = ("coord", 0.5, 0.0, 0.25, 3.0)
+                apply_transform(mesh2, t2)
+                simu.mesh = mesh2
+                simu.Get_K_C_M_F()
+                simu.Save_Iter()
+                simu.Set_Iter(0)
+                simu.Set_Iter(2)
+                res.case(("replace-after-going-back", kind, et))
+                cfg.meshes = [dict(h=1.0, transforms=[t2])]
+                cfg.cur = 0
+                Ks = [A.toarray() for A in simu.Get_K_C_M_F()]
+                fs, _ = fresh(cfg)
+                Kf = [A.toarray() for A in fs.Get_K_C_M_F()]
+                bad = [n for n, a, b in zip("KCMF", Ks, Kf) if a.shape != b.shape or np.abs(a - b).max() > 1e-9 * (1e-300 + np.abs(b).max())]
+                if simu.mesh is not mesh2 or bad:
+                    res.fail(f"wrong mesh after restoring an iteration saved on a mesh assigned after going back sim={kind}",
+                             f"Set_Iter(2) {'did not reattach the third mesh' if simu.mesh is not mesh2 else ''}; {bad} differ from those of a simulation built on that mesh", ident)
+            except Exception as ex:  # noqa: BLE001
+                res.fail(f"replace-after-going-back scenario raises sim={kind}", f"{type(ex).__name__}: {str(ex)[:150]}", ident)
+
     # ---------------- phase-field: a change of the elastic law invalidates BOTH staggered systems (psi+ enters the damage system) ----------------
     try:
         meshq = gen_mesh("TRI3", 0.5)
@@ -417,4 +456,6 @@ def main():
 
 
 if __name__ == "__main__":
-    main()
+    from tools.harness._common import run
+
+    run(main)
